@@ -54,9 +54,11 @@ CLAIMED = {
          "is compared with a scene built from scratch in the final configuration (same code both sides, rtol 1e-11). A sensitivity audit guarantees every parameter is observable. "
          "In the other direction, random long histories are recorded from the real scene together with the callbacks each call notified and TLC validates them against Scene.tla "
          "through Trace_Scene.tla (required callbacks of the wiring table must have been notified). Mutators include the manager front-ends (set / clear+add / add) and re-pointing beam and laser at their plasma. "
-         "In thorough, 19 corruptions of the specification's own wiring table must be rejected by NoStale (spec-mutation audit).",
+         "In thorough, 19 corruptions of the specification's own wiring table must be rejected by NoStale (spec-mutation audit), and Apalache discharges the inductive invariant "
+         "(NoStale /\\ EagerFilled inductive over every public call from any configuration), i.e. the model-level property for histories of any length. Scene_SOS.tla enumerates every history of the shape "
+         "re-binding change; observe everything; any change. Notify.tla models the notifier registry itself (add / remove / owner dies / notify with weak references) and is replayed on a real Notifier with dying objects.",
     note="Two concrete values per parameter; one object of each kind; constant mock rates; in-place edits of shared objects and user-defined models are out of scope; histories longer than the depth bound only sampled.",
-    technique="TLA+ wiring/caching state machine model-checked by TLC; explored histories replayed on the real scene vs fresh build; TLC trace validation of recorded histories with notified callbacks",
+    technique="TLA+ wiring/caching state machine model-checked by TLC (bounded) and Apalache (inductive, unbounded); explored histories replayed on the real scene vs fresh build; TLC trace validation of recorded histories with notified callbacks",
     design="4.1"),
  "C18": dict(
     text="LaserObjects.tla models the four laser profiles and two laser spectra as parameters + eagerly recomputed derived state (energy-density function, polarisation function, "
@@ -121,10 +123,12 @@ CLAIMED = {
     text="RayTransfer.tla is the midpoint marching loop as a state machine (one TLA+ step per sample) on integer lattices: Cartesian cells by exact floors, cylindrical cells by squared radii and "
          "sign/magnitude sector tests, periodic toroidal index, three voxel maps (identity, mask with consecutive renumbering, merged cells with holes), samples on a cell face counted as ambiguous. "
          "TLC explores every lattice segment x sample count, checks sample accounting, merged = sum of cells, unmapped cells contribute nothing and, for Cartesian cells, |count - n x exact chord fraction| <= 2 "
-         "with exact slab intersection over rationals. Each behaviour is replayed through the real Cartesian/CylindricalRayTransferIntegrator.integrate (four cylindrical grid shapes incl. single Z layer and "
-         "axisymmetric) and the entries compared; end-to-end Ray.trace through RayTransferBox / RayTransferCylinder checks the chord total and the angular period.",
+         "with exact slab intersection over rationals. Each behaviour is replayed through the real Cartesian/CylindricalRayTransferIntegrator.integrate (six cylindrical grid shapes incl. single Z layer, "
+         "axisymmetric, and odd numbers of periods per turn with 30-degree sector tests) and the entries compared; end-to-end Ray.trace through RayTransferBox / RayTransferCylinder checks the chord total and the angular period. "
+         "RTPipeline.tla models the ray-transfer pipelines' initialise / render / finalise protocol over repeated observations (matrix = mean of this observation's samples), replayed on real pipeline objects; "
+         "RTObject.tla models the voxel-map / mask setters of the ray-transfer objects (bins, inverted map, integration follows the current map).",
     note="Lattice end points inside small fixed grids; exact chord comparison for Cartesian identity map only; non-lattice rays only through the two end-to-end traces.",
-    technique="TLA+ per-sample marching state machine with exact integer geometry, TLC behaviours replayed through the integrators",
+    technique="TLA+ per-sample marching state machine with exact integer geometry, TLC behaviours replayed through the integrators; TLA+ pipeline-protocol and voxel-map state machines replayed on the real objects",
     design="4.10"),
  "C03": dict(
     text="Emission.tla states the per-point composition rules of ExcitationLine, RecombinationLine, ThermalCXLine, TotalRadiatedPower and Bremsstrahlung over a 5-species universe "
